@@ -8,6 +8,8 @@ import Hpv.TermId
 import Hpv.Csr
 import Hpv.Matrix
 import Hpv.GraphModel
+import Hpv.Onto
+import Hpv.Sim
 open Lean
 
 namespace Drv
@@ -186,6 +188,71 @@ def graphBatch (j : Json) : Except String Json := do
     return Json.mkObj [("answers", Json.arr rs)]
 end Graphs
 
+/-! ### C06 -/
+section C06
+open Hpv.Onto
+
+def termOfJson (j : Json) : Except String Hpv.Onto.Term := do
+  let id ← j.getObjValAs? String "id"
+  let alts ← j.getObjValAs? (List String) "alts"
+  let obs ← j.getObjValAs? Bool "obs"
+  let name ← j.getObjValAs? String "name"
+  return ⟨strToCps id, alts.map strToCps, obs, strToCps name⟩
+
+def ontoLookup (j : Json) : Except String Json := do
+  let ts ← (← j.getObjValAs? (List Json) "terms").mapM termOfJson
+  let qs ← j.getObjValAs? (List String) "queries"
+  let answers := qs.map fun q =>
+    let k := strToCps q
+    match getTerm ts k with
+    | some t => Json.mkObj [("id", cpsToStr t.id), ("name", toJson ((getTermName ts k).map cpsToStr)), ("contains", contains ts k)]
+    | none => Json.mkObj [("id", Json.null), ("name", toJson ((getTermName ts k).map cpsToStr)), ("contains", contains ts k)]
+  return Json.mkObj [("len", toJson (len ts)), ("terms", toJson ((terms ts).map (cpsToStr ·.id))),
+    ("term_ids", toJson ((termIds ts).map cpsToStr)), ("answers", Json.arr answers.toArray)]
+end C06
+
+/-! ### C15 -/
+section C15
+open Hpv.Sim
+
+def simHist (j : Json) : Except String Json := do
+  let ops ← j.getObjValAs? (Array Json) "ops"
+  let mut s : State := []
+  let mut outs : Array Json := #[]
+  for opj in ops do
+    let a ← opj.getArr?
+    let k ← (a[0]?.getD Json.null).getStr?
+    let str (i : Nat) : Except String Str := do return strToCps (← (a[i]?.getD Json.null).getStr?)
+    match k with
+    | "set" =>
+      let v ← (a[3]?.getD Json.null).getInt?
+      match Hpv.Sim.set s (← str 1) (← str 2) v with
+      | .ok s' => s := s'; outs := outs.push (Json.str "ok")
+      | .error _ => outs := outs.push (Json.str "ValueError")
+    | "get" => outs := outs.push (toJson (get s (← str 1) (← str 2)))
+    | "len" => outs := outs.push (toJson (len s))
+    | "items" => outs := outs.push (toJson ((items s).map fun t => Json.arr #[cpsToStr t.1, cpsToStr t.2.1, toJson t.2.2]))
+    | _ => throw s!"unknown sim op {k}"
+  return Json.arr outs
+
+def metaJson (m : Meta) : Json := toJson (m.map fun kv => Json.arr #[cpsToStr kv.1, cpsToStr kv.2])
+
+def metaCodec (j : Json) : Except String Json := do
+  let forb ← j.getObjValAs? (List Nat) "forb"
+  let pairs ← j.getObjValAs? (List (String × String)) "meta"
+  let m : Meta := pairs.map fun p => (strToCps p.1, strToCps p.2)
+  let enc := encodeMeta forb m
+  let dec : Json := match enc with
+    | .ok s => match decodeMeta s with
+      | .ok d => Json.mkObj [("ok", metaJson d)]
+      | .error _ => Json.mkObj [("err", "ValueError")]
+    | .error _ => Json.null
+  let encJ : Json := match enc with
+    | .ok s => Json.mkObj [("ok", cpsToStr s)]
+    | .error _ => Json.mkObj [("err", "ValueError")]
+  return Json.mkObj [("table_ok", TableOk forb), ("enc", encJ), ("dec", dec)]
+end C15
+
 def handle (j : Json) : Except String Json := do
   let op ← j.getObjValAs? String "op"
   match op with
@@ -194,6 +261,9 @@ def handle (j : Json) : Except String Json := do
   | "c04.sort" => c04sort j
   | "c17.hist" => c17hist j
   | "graph.batch" => graphBatch j
+  | "onto.lookup" => ontoLookup j
+  | "sim.hist" => simHist j
+  | "meta.codec" => metaCodec j
   | "c17.csr" => c17csr j
   | _ => throw s!"unknown op {op}"
 end Drv
